@@ -158,6 +158,35 @@ def make_cases(ctx, first):
                                     w.add(blob_delete(repo, d))
                                     w.add(blob_get(repo, d))
                     break
+        if variant in (1, 3) and (i // 4) % 2 == 0:
+            # a repository that holds nothing any more but whose directory holds another repository (a and a/b): the collection
+            # that finds it empty leaves either a layout or nothing of its own there, and the nested one untouched
+            cfg_ = b"{}"
+            w.contents.add(cfg_)
+            w.add(upload_post("a/b", digest=dg("sha256", cfg_), body=cfg_))
+            if cfg_ not in w.blobs["a/b"]:
+                w.blobs["a/b"].append(cfg_)
+            mi_ = image_manifest(desc(MT_CFG, cfg_), [], annotations={"inner": str(i)})
+            w.contents.add(mi_)
+            w.add(manifest_put("a/b", "inner", mi_, ctype=MT_OCI_M))
+            w.manifests["a/b"].append((mi_, MT_OCI_M))
+            w.tags["a/b"].add("inner")
+            for t in sorted(w.tags["a"]):
+                w.add(manifest_delete("a", t))
+            for b, mt in list(w.manifests["a"]):
+                w.add(manifest_delete("a", dg("sha256", b)))
+            w.tags["a"] = set()
+            w.manifests["a"] = []
+            w.subjects["a"] = set()
+            for _ in range(2):
+                w.add(gcgen.age_step("a", "", 7200))
+                w.add(gcgen.gc_step("a"))
+                w.add(special("snapshot", full=True))
+                for rp in REPOS:
+                    x = tag_list(rp)
+                    x["after_snapshot"] = True
+                    w.add(x)
+            w.add(manifest_get("a/b", "inner"))
         w.add(special("snapshot", full=True))
         for repo in REPOS:
             x = tag_list(repo)
